@@ -63,6 +63,7 @@ type faultCase struct {
 	Fault   string `json:"fault"`
 	Cert    string `json:"cert"`
 	Strict  bool   `json:"strict"`
+	Others  bool   `json:"others"` // a second, healthy CRL is in force next to the failing one
 }
 
 // c09Validator injects lookup-time faults underneath a real validator.
@@ -76,9 +77,11 @@ func c09Validator(c *vk.Ctx, rng *rand.Rand) int {
 		for _, fault := range faults {
 			for _, cert := range []string{"c1", "c2"} { // c1 listed, c2 not listed
 				for _, strict := range []bool{false, true} {
-					fc := faultCase{backend, fault, cert, strict}
-					c09One(c, fc, rng)
-					n++
+					for _, others := range []bool{false, true} {
+						fc := faultCase{backend, fault, cert, strict, others}
+						c09One(c, fc, rng)
+						n++
+					}
 				}
 			}
 		}
@@ -112,7 +115,11 @@ func c09One(c *vk.Ctx, fc faultCase, rng *rand.Rand) {
 	}
 	defer h.destroy()
 	h.publish("U", hubDoc{Signer: "A", Keys: []int{2}, Q: "valid"})
-	h.publish("D", hubDoc{Q: "garbage"})
+	if fc.Others {
+		h.publish("D", hubDoc{Signer: "A", Keys: []int{}, Q: "valid"})
+	} else {
+		h.publish("D", hubDoc{Q: "garbage"})
+	}
 	armed := false
 	if err := h.w.Provision(); err != nil {
 		c.Infra("provision: %v", err)
@@ -128,6 +135,13 @@ func c09One(c *vk.Ctx, fc faultCase, rng *rand.Rand) {
 		c.Infra("expected one repository entry, got %d", len(ids))
 	}
 	st := repo.VerifStore(ids[0])
+	if fc.Others {
+		// c1 names the distribution point D: its handshake brings a second CRL into force
+		if r1 := h.w.HandshakeTimeout(h.chains["c1"], 30*time.Second); r1.Verdict != "accept" || len(repo.VerifIdentifiers()) != 2 {
+			c.Drift("c09-setup-second-crl")
+			return
+		}
+	}
 	switch fc.Fault {
 	case "closed-underneath":
 		st.(*crlstore.LevelDbStore).Db.Close()
@@ -145,9 +159,18 @@ func c09One(c *vk.Ctx, fc faultCase, rng *rand.Rand) {
 	}
 	listed := fc.Cert == "c2"
 	r := h.w.HandshakeTimeout(h.chains[fc.Cert], 30*time.Second)
+	if fc.Others {
+		// the order in which the CRLs are consulted is not fixed: repeat, every answer counts
+		for i := 0; i < 24 && r.Verdict != "accept" && r.Verdict != "panic" && r.Verdict != "hang"; i++ {
+			r = h.w.HandshakeTimeout(h.chains[fc.Cert], 30*time.Second)
+		}
+	}
 	c.Eval(fmt.Sprintf("%+v", fc))
 	rep := map[string]any{"case": fc, "shape": shape, "result": r}
 	sig := fmt.Sprintf("validator:%s:%s:%s", fc.Backend, fc.Fault, map[bool]string{true: "listed", false: "unlisted"}[listed])
+	if fc.Others {
+		sig += ":second-crl-healthy"
+	}
 	switch fc.Fault {
 	case "closed-underneath":
 		// every lookup in that store fails: listed or not, the handshake must be denied
